@@ -25,6 +25,7 @@ import (
 	"github.com/streamingfast/dbin"
 	"github.com/streamingfast/dstore"
 	"go.uber.org/zap"
+	"google.golang.org/protobuf/proto"
 	"google.golang.org/protobuf/types/known/anypb"
 	"google.golang.org/protobuf/types/known/timestamppb"
 )
@@ -226,6 +227,10 @@ type recorder struct {
 	failAt    int   // index of the call that fails (-1 never)
 	onCall    func(n int)
 	callDelay func(n int) time.Duration
+	// content: the block handed to the handler must be the STORED block in every field (payload, timestamp, LIB and
+	// parent numbers), not only in (id, number, parent id): "hands the handler the stored blocks" (W1 audit; C10 only,
+	// the bundles of C11 may be damaged on purpose)
+	content bool
 }
 
 func (r *recorder) ProcessBlock(blk *pbbstream.Block, obj interface{}) error {
@@ -248,6 +253,9 @@ func (r *recorder) ProcessBlock(blk *pbbstream.Block, obj interface{}) error {
 			r.mismatch++
 		}
 	} else {
+		r.mismatch++
+	}
+	if r.content && !proto.Equal(blk, fsBlock(fsBlk{ID: c.ID, Num: c.Num, Par: c.Par})) {
 		r.mismatch++
 	}
 	r.calls = append(r.calls, c)
@@ -635,7 +643,7 @@ func c10Exec(raw json.RawMessage) (*Case, error) {
 	attempt := func(quiet time.Duration) *fsObs {
 		atomic.StoreInt32(&fired, 0)
 		st, firsts := fsBuildStore(l, in.Delays)
-		rec := &recorder{failAt: -1}
+		rec := &recorder{failAt: -1, content: true}
 		rec.callDelay = in.Delays.handler
 		pre := bstream.PreprocessFunc(func(blk *pbbstream.Block) (interface{}, error) {
 			id := fsIDNum(blk.Id)
